@@ -210,7 +210,7 @@ def worker(ctx, shard, which):
                 break
             labels, opts, tag = WL.gen_case(rng, heavy_ok=(ctx.tier == "thorough"))
             stale = None
-            if rng.random() < 0.2:
+            if rng.random() < 0.2 and len(labels) <= 60:  # the stale layout is a second, often many-layered compute
                 stale = rng.choice([{"maxPos": 200, "density": 0.3}, {"maxPos": 400, "algorithm": "simple", "density": 0.5}, {"maxPos": 120, "stubWidth": 4}, {"algorithm": "none"}])
                 tag += "+stale-nodes"
             nv, nw = ctx.n_violations, len(ctx.violations)
